@@ -65,6 +65,31 @@ impl Write for Buf {
     }
 }
 
+/// the text of a value under every kind of format specification (a formatter's width / fill / alignment /
+/// precision / sign / alternate flags and Debug): the same in every feature configuration
+fn dig_text<T: core::fmt::Display + core::fmt::Debug>(d: &mut Digest, x: &T) {
+    macro_rules! one {
+        ($fmt:literal) => {{
+            let mut buf = Buf { b: [0; 96], n: 0 };
+            let r = write!(buf, $fmt, x);
+            d.i(r.is_ok() as i64);
+            d.b(&buf.b[..buf.n]);
+        }};
+    }
+    one!("{}");
+    one!("{:40}");
+    one!("{:>44}");
+    one!("{:*^48}");
+    one!("{:<44}|");
+    one!("{:12.10}");
+    one!("{:.5}");
+    one!("{:+}");
+    one!("{:#}");
+    one!("{:060}");
+    one!("{:?}");
+    one!("{:#?}");
+}
+
 fn dig_dt(d: &mut Digest, x: &DateTime) {
     d.i(x.unix_time());
     d.i(x.nanoseconds() as i64);
@@ -74,9 +99,7 @@ fn dig_dt(d: &mut Digest, x: &DateTime) {
     d.i(x.year_day() as i64);
     d.i(x.local_time_type().ut_offset() as i64);
     d.b(x.local_time_type().time_zone_designation().as_bytes());
-    let mut buf = Buf { b: [0; 96], n: 0 };
-    let _ = write!(buf, "{}", x);
-    d.b(&buf.b[..buf.n]);
+    dig_text(d, x);
 }
 
 fn err_code(e: &tz::TzError) -> i64 {
@@ -89,6 +112,12 @@ fn err_code(e: &tz::TzError) -> i64 {
         tz::TzError::TimeZone(_) => -6,
         _ => -7,
     }
+}
+
+/// an error: its class and its Display / Debug text
+fn dig_err(d: &mut Digest, e: &tz::TzError) {
+    d.i(err_code(e));
+    dig_text(d, e);
 }
 
 pub fn core_workload(seed: u64, n: u64) -> Digest {
@@ -119,7 +148,7 @@ pub fn core_workload(seed: u64, n: u64) -> Digest {
     for (tr, rule) in [(&transitions[..], &fixed), (&transitions[..2], &us_rule)] {
         match TimeZoneRef::new(tr, &types, &leaps, rule) {
             Ok(_) => d.i(1),
-            Err(e) => d.i(err_code(&e)),
+            Err(e) => dig_err(&mut d, &e),
         }
     }
     // zones with many local time types and transitions, built in fixed-size arrays (no allocator):
@@ -160,10 +189,10 @@ pub fn core_workload(seed: u64, n: u64) -> Digest {
                             }
                         }
                     }
-                    Err(e) => d.i(err_code(&e)),
+                    Err(e) => dig_err(&mut d, &e),
                 }
             }
-            Err(e) => d.i(err_code(&e)),
+            Err(e) => dig_err(&mut d, &e),
         }
     }
     for i in 0..n {
@@ -180,11 +209,9 @@ pub fn core_workload(seed: u64, n: u64) -> Digest {
                 d.i(u.year_day() as i64);
                 d.i(u.unix_time());
                 d.i(u.total_nanoseconds() as i64);
-                let mut buf = Buf { b: [0; 96], n: 0 };
-                let _ = write!(buf, "{}", u);
-                d.b(&buf.b[..buf.n]);
+                dig_text(&mut d, &u);
             }
-            Err(e) => d.i(err_code(&e)),
+            Err(e) => dig_err(&mut d, &e),
         }
         let z = zones[(r.next() % zones.len() as u64) as usize];
         match z.find_local_time_type(t) {
@@ -192,7 +219,7 @@ pub fn core_workload(seed: u64, n: u64) -> Digest {
                 d.i(l.ut_offset() as i64);
                 d.i(l.is_dst() as i64);
             }
-            Err(e) => d.i(err_code(&e)),
+            Err(e) => dig_err(&mut d, &e),
         }
         match DateTime::from_timespec(t, ns, z) {
             Ok(x) => {
@@ -216,19 +243,19 @@ pub fn core_workload(seed: u64, n: u64) -> Digest {
                             }
                         }
                     }
-                    Err(e) => d.i(err_code(&e)),
+                    Err(e) => dig_err(&mut d, &e),
                 }
             }
-            Err(e) => d.i(err_code(&e)),
+            Err(e) => dig_err(&mut d, &e),
         }
         match DateTime::from_total_nanoseconds(t as i128 * 1_000_000_000 + ns as i128 - 500_000_000, z) {
             Ok(x) => dig_dt(&mut d, &x),
-            Err(e) => d.i(err_code(&e)),
+            Err(e) => dig_err(&mut d, &e),
         }
         let y = r.range(-3000, 3000) as i32;
         match DateTime::new(y, 1 + (r.next() % 12) as u8, 1 + (r.next() % 31) as u8, (r.next() % 24) as u8, (r.next() % 60) as u8, (r.next() % 61) as u8, ns, types[(r.next() % 5) as usize]) {
             Ok(x) => dig_dt(&mut d, &x),
-            Err(e) => d.i(err_code(&e)),
+            Err(e) => dig_err(&mut d, &e),
         }
     }
     d
@@ -255,7 +282,7 @@ pub fn alloc_workload(seed: u64, n: u64, files: &[&[u8]]) -> Digest {
             match TimeZone::from_tz_data(files[(r.next() % files.len() as u64) as usize]) {
                 Ok(z) => z,
                 Err(e) => {
-                    d.i(err_code(&e));
+                    dig_err(&mut d, &e);
                     continue;
                 }
             }
@@ -279,10 +306,10 @@ pub fn alloc_workload(seed: u64, n: u64, files: &[&[u8]]) -> Digest {
                             }
                         }
                     }
-                    Err(e) => d.i(err_code(&e)),
+                    Err(e) => dig_err(&mut d, &e),
                 }
             }
-            Err(e) => d.i(err_code(&e)),
+            Err(e) => dig_err(&mut d, &e),
         }
     }
     d
@@ -387,7 +414,7 @@ pub fn replay_cases(text: &str) -> (Digest, u64) {
                 let z = match TimeZoneRef::new(&transitions[..nr], &types[..nt], &leaps[..nl], &rule) {
                     Ok(z) => z,
                     Err(e) => {
-                        d.i(err_code(&e));
+                        dig_err(&mut d, &e);
                         continue;
                     }
                 };
@@ -402,7 +429,7 @@ pub fn replay_cases(text: &str) -> (Digest, u64) {
                             d.i(l.is_dst() as i64);
                             d.b(l.time_zone_designation().as_bytes());
                         }
-                        Err(e) => d.i(err_code(&e)),
+                        Err(e) => dig_err(&mut d, &e),
                     }
                     match DateTime::from_timespec(u, (u as u32) % 1_000_000_000, z) {
                         Ok(x) => {
@@ -411,7 +438,7 @@ pub fn replay_cases(text: &str) -> (Digest, u64) {
                                 dig_dt(&mut d, &p);
                             }
                         }
-                        Err(e) => d.i(err_code(&e)),
+                        Err(e) => dig_err(&mut d, &e),
                     }
                 } else {
                     let f: [i64; 7] = {
@@ -447,7 +474,7 @@ pub fn replay_cases(text: &str) -> (Digest, u64) {
                                     dig_dt(&mut d, &u);
                                 }
                             }
-                            Err(e) => d.i(err_code(&e)),
+                            Err(e) => dig_err(&mut d, &e),
                         }
                     }
                 }
